@@ -2,6 +2,7 @@
 import collections
 import enum
 import json
+import threading
 
 from lib import vlib
 from props import quote_common as qc
@@ -349,6 +350,41 @@ def legal_keywords(d):
     return True
 
 
+def guard_container(HM):
+    """the recursion guard of hy.models as seen by the calling thread, however it is stored: the module attribute _seen,
+    or an attribute `seen` of some private module-level object (e.g. a threading.local); None if it cannot be found"""
+    g = getattr(HM, "_seen", None)
+    if isinstance(g, (set, list, dict)):
+        return g
+    for name, o in vars(HM).items():
+        if name.startswith("_") and not name.startswith("__") and not isinstance(o, (type, type(HM))):
+            try:
+                g = getattr(o, "seen", None)
+            except Exception:  # noqa
+                g = None
+            if isinstance(g, (set, list, dict)):
+                return g
+    return None
+
+
+def in_worker(jobs):
+    """run the zero-argument callables one after the other in ONE fresh thread; their results in order"""
+    out = []
+
+    def work():
+        for j in jobs:
+            try:
+                out.append(j())
+            except BaseException as e:  # noqa
+                out.append(("Err", "OTHER", type(e).__name__, str(e)[:120]))
+    t = threading.Thread(target=work)
+    t.start()
+    t.join()
+    while len(out) < len(jobs):
+        out.append(("Err", "OTHER", "thread died", ""))
+    return out
+
+
 def all_models(m):
     from hy import models as M
     if not isinstance(m, M.Object):
@@ -374,7 +410,8 @@ for c in cases:
         out.append(["Ok", qc.canon(qc.dump(hy.as_model(v)), True)])
     except Exception as e:
         out.append(["Err", type(e).__name__])
-    assert hy.models._seen == set()
+    g = c29.guard_container(hy.models)
+    assert g is None or len(g) == 0
 print(json.dumps(out))
 """
 
@@ -413,6 +450,7 @@ def run(chk):
                 "(all classes, raw children) and unwrappable objects nested inside; (c) instances of subclasses (separate "
                 "stream); (d) object graphs of 1-8 nodes (lists, dicts, tuples, sets, model sequences, shared subobjects, back "
                 "edges from lists/dicts: direct and indirect cycles) promoted from several roots one after the other; "
+                "the same promotions repeated in worker threads (one after the other) with identical outcomes demanded; "
                 "hy.models._seen read after every call; every successful result of the interleaved history compared with a "
                 "fresh interpreter's; non-trivial = container value or graph")
     n_plain, n_mixed, n_sub, n_heap = (30000, 8000, 1500, 8000) if thorough else (2000, 600, 150, 600)
@@ -421,9 +459,12 @@ def run(chk):
     lines, info = [], []
 
     def after_call(what):
-        if HM._seen != set():
+        g = guard_container(HM)
+        if g is None:
+            chk.count("guard-state-not-readable(clause skipped)")
+        elif len(g):
             seen_bad.append(what)
-            HM._seen.clear()
+            g.clear()
 
     # ---- (a) + (b): trees
     trees = [("plain", g.plain(rng.choice([0, 1, 2, 3, 4]))) for _ in range(n_plain)]
@@ -444,7 +485,7 @@ def run(chk):
         chk.case(("tree", repr(d)), nontrivial=d[0] in ("PList", "PTuple", "PSet", "PDict", "VSeq"),
                  sample={"value": repr(v)[:160], "as_model": str(res)[:160]} if len(chk.samples) < 8 and qc.count_nodes(d) > 4 else None)
         lines.append("am " + " ".join(_enc(d)))
-        rec = {"inp": inp, "how": how, "d": d, "res": res, "has_models": has_models, "eval": None, "again": None}
+        rec = {"inp": inp, "how": how, "d": d, "res": res, "has_models": has_models, "eval": None, "again": None, "v": v}
         if res[0] == "Ok":
             m = hy.as_model(v)
             after_call("second promotion")
@@ -477,8 +518,8 @@ def run(chk):
             chk.fail("unwrappable-object-not-reported", inp, res, "HyWrapperError", how)
         info.append(rec)
     # ---- tie T3 on trees
-    if binary:
-        outs = qc.run_model(binary, lines)
+    outs = safe_model_run(chk, binary, lines, "trees")
+    if outs is not None:
         bad_inst = []
         for rec, out in zip(info, outs):
             mo = decode_am(out)
@@ -541,11 +582,11 @@ def run(chk):
         chk.case(("graph", repr(nodes), tuple(roots)), nontrivial=True,
                  sample={"nodes": repr(nodes)[:200], "roots": roots, "outcomes": str(real)[:160]} if len(chk.samples) < 12 and on_cycle else None)
         hlines.append(encode_heap(nodes, roots, objs))
-        hinfo.append((nodes, roots, real))
-    if binary:
-        outs = qc.run_model(binary, hlines)
+        hinfo.append((nodes, roots, real, objs))
+    outs = safe_model_run(chk, binary, hlines, "object graphs")
+    if outs is not None:
         fuel_out = 0
-        for (nodes, roots, real), out in zip(hinfo, outs):
+        for (nodes, roots, real, _objs), out in zip(hinfo, outs):
             mouts, mseen = decode_heap(out, len(roots))
             inp = {"origin": "graph", "nodes": repr(nodes)[:600], "roots": roots}
             if any(o == ("Fuel",) for o in mouts):
@@ -564,6 +605,40 @@ def run(chk):
                     break
         chk.obligation("the heap model's outcome is defined with fuel 2*|heap|+4 on every generated graph", fuel_out == 0,
                        "%d graphs ran out of fuel" % fuel_out)
+    # ---- the same promotions in worker threads (one thread after the other): outcomes must be those of the main thread
+    def guard_len():
+        g = guard_container(HM)
+        if g is None:
+            return None
+        n = len(g)
+        g.clear()      # so that one dirty call is reported once, not for every later call
+        return n
+    n_thr_fail = 0
+    CH = 250
+    jobs_all = [(rec["inp"], rec["res"], (lambda v=rec["v"]: (real_as_model(hy, v)[0], guard_len()))) for rec in info]
+    for nodes, roots, real, objs in hinfo:
+        for r, re_ in zip(roots, real):
+            jobs_all.append(({"origin": "graph", "nodes": repr(nodes)[:600], "root": r}, re_,
+                             (lambda o=objs[r]: (real_as_model(hy, o)[0], guard_len()))))
+    for i in range(0, len(jobs_all), CH):
+        chunk = jobs_all[i:i + CH]
+        outs = in_worker([j for _, _, j in chunk])
+        for (inp, main_res, _), o in zip(chunk, outs):
+            chk.count("worker-thread-promotions")
+            got, glen = (o if len(o) == 2 and isinstance(o[0], tuple) else (o, None))
+            if got != main_res:
+                n_thr_fail += 1
+                chk.fail("outcome-differs-in-a-worker-thread", inp, got, main_res,
+                         "threading.Thread(target=lambda: hy.as_model(v)).start() -- same value as in the main thread")
+            elif glen:
+                n_thr_fail += 1
+                chk.fail("_seen-not-restored", dict(inp, thread="worker"), "guard holds %d ids after the call" % glen, "empty",
+                         "read the guard inside the worker thread after hy.as_model(v)")
+    g_main = guard_container(HM)
+    if g_main is not None and len(g_main):
+        seen_bad.append("after the worker threads")
+        g_main.clear()
+    chk.extra["worker_thread_promotions"] = len(jobs_all)
     chk.obligation("hy.models._seen is empty after every call of the interleaved history (%d calls)" % (len(info) + len(hinfo)),
                    not seen_bad, "; ".join(seen_bad[:3]))
     if seen_bad:
@@ -585,6 +660,17 @@ def run(chk):
                 chk.fail("history-dependent-result", {"case": json.dumps(c)[:500]}, str(mine)[:300], str(fr)[:300],
                          "promote the value after the failing promotions of this run, and in a fresh interpreter")
     chk.extra["history_results_compared_with_fresh_interpreter"] = len(history)
+
+
+def safe_model_run(chk, binary, lines, what):
+    """the extracted model on these cases, or None (recorded as a failed obligation) -- the oracle goes on regardless"""
+    if not binary:
+        return None
+    try:
+        return qc.run_model(binary, lines)
+    except Exception as e:  # noqa
+        chk.obligation("extracted model ran on the %s" % what, False, str(e)[-1000:])
+        return None
 
 
 def _enc(d):
